@@ -44,11 +44,8 @@ Definition h_basket_create (e : env) (s : state) (curator : addr) (name : bytes)
 (* Put                                                                 *)
 (* ------------------------------------------------------------------ *)
 
-(* time.Time.Add(-d) for a protobuf duration; AsDuration saturates at +-2^63-1 ns *)
-Definition max_int64 : Z := 9223372036854775807.
-Definition duration_ns (secs nanos : Z) : Z :=
-  let d := secs * 1000000000 + nanos in
-  if max_int64 <? d then max_int64 else if d <? - max_int64 - 1 then - max_int64 - 1 else d.
+(* block time minus a protobuf duration, computed on seconds and nanoseconds (exact, no saturation) *)
+Definition duration_ns (secs nanos : Z) : Z := secs * 1000000000 + nanos.
 Definition ts_of_nanos (n : Z) : ts := {| secs := n / 1000000000; nanos := n mod 1000000000 |}.
 
 Definition min_start_date (c : date_criteria) (block_time : ts) : option ts :=
